@@ -5,7 +5,7 @@
 cd /verif
 ids=${@:-$(ls seeded)}
 for sid in $ids; do
-  pid=$(python3 -c "import json;print(json.load(open('seeded/$sid/meta.json'))['property'])")
+  pid=$(python3 -c "import json;m=json.load(open('seeded/$sid/meta.json'));print(m.get('check_property',m['property']))")
   out=$(tools/trymut.sh /verif/seeded/$sid/patch.diff $pid 2>&1)
   det=$(echo "$out" | grep -c "^VIOLATION")
   nf=$(echo "$out" | grep "^VIOLATION" | grep -c "no-failing-input-found")
@@ -19,9 +19,12 @@ now=int(det)>0
 m['detected_final']=now
 m['final_run']=line
 m['final_kind']=('no-failing-input-found (correspondence/proof broken)' if int(nf)==int(det) and now else 'failing input replayed') if now else 'not detected'
-if now and not was and not m.get('strengthened'):
+if now and not was and not m.get('strengthened') and not m.get('check_property'):
     m['strengthened']='check strengthened after this change was first missed'
-m['detected']=now or was
+if m.get('check_property') and m['check_property']!=m['property']:
+    m['detected_by_other_check']=now
+else:
+    m['detected']=now or was
 json.dump(m,open(p,'w'),indent=1)
 print(sid, 'detected' if now else 'MISSED', line[:90])
 PY
